@@ -645,6 +645,19 @@ func (ma *ModuleAnalyzer) walkNode(node *parser.Node, visitor func(*parser.Node)
 	for _, child := range node.Body {
 		ma.walkNode(child, visitor)
 	}
+
+	// else / except / finally blocks hold runtime imports too
+	for _, child := range node.Orelse {
+		ma.walkNode(child, visitor)
+	}
+
+	for _, child := range node.Handlers {
+		ma.walkNode(child, visitor)
+	}
+
+	for _, child := range node.Finalbody {
+		ma.walkNode(child, visitor)
+	}
 }
 
 // calculateRelativeLevel calculates the level of relative import (number of dots)
@@ -750,15 +763,28 @@ func (ma *ModuleAnalyzer) estimateLineCount(filePath string) int {
 // isInTypeCheckingBlock checks if a node is inside a TYPE_CHECKING conditional block
 func (ma *ModuleAnalyzer) isInTypeCheckingBlock(node *parser.Node) bool {
 	// Walk up the parent chain to find if we're inside an if statement
+	child := node
 	current := node.Parent
 	for current != nil {
 		if current.Type == parser.NodeIf {
-			// Check if this is a TYPE_CHECKING condition
-			if ma.isTypeCheckingCondition(current.Test) {
+			// Check if this is a TYPE_CHECKING condition; the else branch of
+			// such a block does run at runtime
+			if ma.isTypeCheckingCondition(current.Test) && !containsNode(current.Orelse, child) {
 				return true
 			}
 		}
+		child = current
 		current = current.Parent
+	}
+	return false
+}
+
+// containsNode reports whether target is one of nodes
+func containsNode(nodes []*parser.Node, target *parser.Node) bool {
+	for _, n := range nodes {
+		if n == target {
+			return true
+		}
 	}
 	return false
 }
